@@ -1,5 +1,5 @@
 From Coq Require Import List NArith Arith.
-From SK Require Import lib.LGraph lib.Mono model.C11_Model proof.C11_Aut proof.C11_WL proof.C11_Dedup proof.C11_Main proof.C11_Comp proof.C11_VF2 proof.C11_Vocab proof.C11_Sig.
+From SK Require Import lib.LGraph lib.Mono model.C11_Model proof.C11_Aut proof.C11_WL proof.C11_Dedup proof.C11_Main proof.C11_Comp proof.C11_VF2 proof.C11_Vocab proof.C11_Sig proof.C11_Anchor.
 Import ListNotations.
 
 (** Vocabulary (definitions in proof/C11_Aut.v, written out here for the reader):
@@ -141,6 +141,19 @@ Theorem C11_components :
     (forall u, In u (node_ids g) -> exists c, In c (components g) /\ In u c).
 Proof. exact components_spec. Qed.
 Print Assumptions C11_components.
+
+(** The anchor components handed to the de-duplicators (round 3).  Automorphism.anchor_component (disconnected graphs only)
+    is a reported component of maximal size; AutoEst.anchor_component is a reported component that no other component
+    precedes in the order "larger first, then smaller minimal node id" ([not_before c A] := |c| < |A| \/ (|c| = |A| /\
+    minN A <= minN c)). *)
+Theorem C11_anchors :
+  forall (fn : nlab -> N) (fe : elab -> N) (g : graph),
+    (forall A, a_anchor (analyze fn fe g) = Some A ->
+       In A (components g) /\ forall c, In c (components g) -> (length c <= length A)%nat) /\
+    (components g <> [] ->
+       In (wl_anchor g) (components g) /\ forall c, In c (components g) -> not_before c (wl_anchor g)).
+Proof. exact anchors_all. Qed.
+Print Assumptions C11_anchors.
 
 (** Clause 2, second sentence (the fast estimate).  After any number [k] of WL-1 sweeps (AutoEst max_iter), every
     automorphism that preserves the labels the estimate was given keeps the colour of every node — component swaps
